@@ -53,6 +53,16 @@ pub fn gen_c10(rng: &mut Rng, thorough: bool, emit: &mut dyn FnMut(SchedCase)) {
     }
 }
 
+/// C11's concurrent part: the programs of gen_c10 that abort, and every program against a consumer
+/// that drops the body early
+pub fn gen_c11(rng: &mut Rng, thorough: bool, emit: &mut dyn FnMut(SchedCase)) {
+    gen_c10(rng, thorough, &mut |c: SchedCase| {
+        if c.drop_after.is_some() || c.program.iter().any(|o| matches!(o, POp::Abort)) {
+            emit(c)
+        }
+    });
+}
+
 fn short(p: &[POp]) -> Vec<String> {
     p.iter()
         .map(|o| match o {
